@@ -88,7 +88,8 @@ class Sched:
         self.max_steps = max_steps
         self.main_sem = threading.Semaphore(0)
         self.aborting = False
-        self.log = []                # (step, current name or '', [(name, how, not started yet?)], chosen name, default name)
+        self.log = []                # (step, current name or '', [(name, how, not started yet?)], chosen name, default name,
+                                     #  (kind, function) of the point the current thread is at)
         self.keep_log = True
         self.observer = None         # f(thread, point) at every point of a managed thread
         self.timeout_ok = None       # f(thread) -> bool: may this timed wait end by its timeout now?
@@ -96,6 +97,7 @@ class Sched:
         self.driver = None           # f(current, options) -> thread or None: overrides deviations (replay of model behaviours)
         self.bad_deviation = None
         self.armed = True            # False: ignore deviations / driver (set-up phase of a run)
+        self.prefer = None           # f(current, options) -> thread or None: changes the DEFAULT choice at a point of `current`
         self.on_depart = None        # f(thread): the thread proceeds past the point it was at
         self.on_wake = None          # f(thread): a blocked thread goes on (lock acquired / wait over)
         self.preemptions = 0
@@ -155,6 +157,11 @@ class Sched:
                     if t is not cur and h == 'run':
                         default = t
                         break
+            elif self.prefer is not None and self.armed:
+                # a scheduling policy of the driver (e.g. "a firer lets the loop run between two fires")
+                d = self.prefer(cur, opts)
+                if d is not None:
+                    default = d
         else:
             for t, h in opts:
                 if h == 'run':
@@ -180,12 +187,14 @@ class Sched:
                     self.bad_deviation = (self.step, want)
         how = dict((t, h) for t, h in opts)[chosen]
         if self.keep_log:
-            self.log.append((self.step, cur.name if cur else '', [(t.name, h, t.state == 'new') for t, h in opts], chosen.name, default.name))
+            pt = cur.point if cur is not None else ('', '')
+            self.log.append((self.step, cur.name if cur else '', [(t.name, h, t.state == 'new') for t, h in opts], chosen.name, default.name,
+                             (pt[0], pt[1])))
         if chosen is not cur:
             self.run_len = 0
             self.switches += 1
-            if cur is not None:
-                self.preemptions += 1
+        if cur is not None and chosen is not default:
+            self.preemptions += 1        # a deviation where the running thread could have gone on
         return chosen, how
 
     def _fail(self, msg):
